@@ -158,7 +158,7 @@ class AMF:
             # authentication vector
             ue.rand=bytes(s.R.randrange(256) for _ in range(16)); sqn=bytes(s.R.randrange(256) for _ in range(6)); amf=bytes([0x80|s.R.randrange(128),s.R.randrange(256)])
             k=bytes.fromhex(s.cfg['k']); opc=bytes.fromhex(s.cfg['opc'])
-            m=C.milenage(k,opc,ue.rand,sqn,amf); sx=C.xor(sqn,m['ak']); autn=sx+amf+m['mac_a']
+            m=C.milenage(k,opc,ue.rand,sqn,amf); sx=C.xor(sqn,m['ak']); autn=sx+amf+m['mac_a']; ue.autn=autn; ue.sqn=sqn; ue.amf_field=amf
             snn=('5G:mnc%s.mcc%s.3gppnetwork.org'%(mnc.zfill(3),mcc)).encode()
             kt=C.key_tree(m['ck'],m['ik'],snn,ue.rand,m['res'],sx,ue.supi.encode(),0,2)
             ue.xres=kt['xres']; ue.kint=kt['kint']; ue.kenc=kt['kenc']; ue.ngksi=s.R.randrange(0,7)
